@@ -239,3 +239,109 @@ def switch_table(relfile, qualname, nth=0):
             eat(st)
     flush()
     return groups, src_text(sw[nth])
+
+
+# --------------------------------------------------------------------------- guard expressions -> Gallina
+
+class GExpr:
+    """Gallina text of a boolean/integer C++ expression plus its free variables (name -> 'Z'|'bool')."""
+
+    def __init__(self):
+        self.vars = {}
+
+    def var(self, name, ty):
+        name = name.rstrip("_")
+        if name in ("fix", "if", "then", "else", "end", "match", "with", "fun", "let", "in", "at", "as", "return", "for", "by"):
+            name += "'"
+        old = self.vars.get(name)
+        if old and old != ty:
+            raise Untranslatable("variable %s used at %s and %s" % (name, old, ty))
+        self.vars[name] = ty
+        return name
+
+    def tr(self, node, want):
+        """want: 'bool' or 'Z'"""
+        node = strip(node)
+        k = node.get("kind")
+        if k == "ImplicitCastExpr" or k == "CXXOperatorCallExpr" and False:
+            pass
+        if k == "ConstantExpr" and "value" in node:
+            return "(%d)" % int(node["value"])
+        if k == "IntegerLiteral":
+            if want == "bool":
+                return "true" if int(node["value"]) else "false"
+            return "(%d)" % int(node["value"])
+        if k == "CXXBoolLiteralExpr":
+            return "true" if node["value"] else "false"
+        if k == "BinaryOperator":
+            op = node["opcode"]
+            a, b = node["inner"][0], node["inner"][1]
+            if op in ("&&", "||"):
+                return "(%s %s %s)%%bool" % (self.tr(a, "bool"), op, self.tr(b, "bool"))
+            cmpops = {"<": "Z.ltb", "<=": "Z.leb", ">": "Z.gtb", ">=": "Z.geb", "==": "Z.eqb"}
+            if op in cmpops:
+                r = "(%s %s %s)" % (cmpops[op], self.tr(a, "Z"), self.tr(b, "Z"))
+                return r
+            if op == "!=":
+                return "(negb (Z.eqb %s %s))" % (self.tr(a, "Z"), self.tr(b, "Z"))
+            arith = {"+": "Z.add", "-": "Z.sub", "*": "Z.mul", "/": "Z.quot", "%": "Z.rem"}
+            if op in arith:
+                return "(%s %s %s)" % (arith[op], self.tr(a, "Z"), self.tr(b, "Z"))
+            raise Untranslatable("binary operator " + op)
+        if k == "UnaryOperator":
+            op = node["opcode"]
+            inner = node["inner"][0]
+            if op == "!":
+                return "(negb %s)" % self.tr(inner, "bool")
+            if op == "-":
+                return "(Z.opp %s)" % self.tr(inner, "Z")
+            if op == "*":
+                # errno is (*__errno_location ())
+                names = [n.get("referencedDecl", {}).get("name") for n in walk(inner) if n.get("kind") == "DeclRefExpr"]
+                if "__errno_location" in names:
+                    return self.var("errno", want)
+            raise Untranslatable("unary operator " + op)
+        if k == "DeclRefExpr":
+            rd = node.get("referencedDecl", {})
+            return self.var(rd.get("name", "?"), want)
+        if k == "MemberExpr":
+            return self.var(node.get("name", "?"), want)
+        if k in ("CXXMemberCallExpr", "CallExpr", "CXXOperatorCallExpr"):
+            callee = strip(node["inner"][0])
+            args = [c for c in node["inner"][1:] if isinstance(c, dict) and c.get("kind") != "CXXDefaultArgExpr"]
+            if callee.get("kind") == "MemberExpr":
+                obj = strip(callee["inner"][0]) if callee.get("inner") else {}
+                objname = ""
+                while obj.get("kind") in ("MemberExpr", "CXXOperatorCallExpr", "ImplicitCastExpr"):
+                    if obj.get("kind") == "MemberExpr":
+                        objname = obj.get("name", "").rstrip("_")
+                        break
+                    inner = [c for c in obj.get("inner", []) if isinstance(c, dict)]
+                    obj = strip(inner[-1]) if inner else {}
+                m = callee.get("name", "?")
+                if m == "operator bool":
+                    return self.var("has_" + objname, "bool")
+                if not args:
+                    return self.var((objname + "_" if objname and objname != "channel" else "") + m, want)
+            raise Untranslatable("call " + str(callee.get("name")))
+        raise Untranslatable("expression kind %s" % k)
+
+
+def if_conditions(relfile, qualname):
+    """conditions of the IfStmts of a function, in source order"""
+    fn = function_decl(relfile, qualname)
+    res = []
+    for n in walk(fn):
+        if n.get("kind") == "IfStmt":
+            inner = [c for c in n.get("inner", []) if isinstance(c, dict)]
+            res.append(inner[0])
+    return res
+
+
+def gallina_guard(name, cond_node):
+    """(text of a Definition, ordered variable list) for one condition; arguments sorted by name"""
+    g = GExpr()
+    body = g.tr(cond_node, "bool")
+    vs = sorted(g.vars.items())
+    args = " ".join("(%s : %s)" % (v, t) for v, t in vs)
+    return "Definition %s %s : bool :=\n  %s." % (name, args, body), vs
